@@ -205,6 +205,13 @@ func c14Rounds(r *kit.Run, idx int64, rng *rand.Rand) {
 					}
 				}
 				switch {
+				case isClosed(done):
+					// released late (slow machine): not a verdict; the stamp
+					// checks of the waiters have run as usual
+					for k := range wcancel {
+						wcancel[k]()
+					}
+					return
 				case q && allStamped && wg.Num() == 0:
 					note(fmt.Sprintf("at quiescence the counter is 0 and every worker has finished, but a waiter is still parked: %v", c.Describe()))
 				case q:
@@ -339,6 +346,15 @@ func c14Hook(r *kit.Run, idx int64, rng *rand.Rand) {
 		}
 		c, q := kit.Quiesce(c14Watchdog)
 		hs, _ := helperState.Load().(string)
+		if all() {
+			// released late (slow machine): not a verdict
+			r.Count("hook_scenarios_released", 1)
+			if mode == 0 {
+				wg.Done()
+			}
+			cancel()
+			return
+		}
 		if q {
 			r.Violation("C14/hook/lost-wakeup", idx, desc,
 				fmt.Sprintf("the waiter's enabling event (context cancelled and/or counter zero) happened between its predicate check and cond.Wait; at quiescence it is still parked (Num()=%d, ctx.Err()=%v, helper goroutine state when the window closed: %q): %v",
@@ -506,7 +522,9 @@ func c14Invariant(r *kit.Run, idx int64, rng *rand.Rand) {
 			})
 			cancel()
 			if !ok {
-				if _, q := kit.Quiesce(c14Watchdog); q {
+				if _, q := kit.Quiesce(c14Watchdog); isClosed(ret) {
+					continue // returned late (slow machine)
+				} else if q {
 					r.Violation("C14/invariant/wait-blocks", idx, desc, fmt.Sprintf("Wait with counter %d (model) and ctx cancelled=%v does not return", model, model != 0), nil)
 				} else {
 					r.Inconclusive("C14 invariant: Wait did not return, not quiescent")
